@@ -43,7 +43,7 @@ type irInstr struct {
 
 type irFunc struct {
 	name   string
-	params []string // types
+	params []string // types ("ptr" for every pointer type)
 	ret    string
 	body   []irInstr
 	multi  bool // more than one basic block
@@ -51,6 +51,7 @@ type irFunc struct {
 }
 
 var (
+	rePtrType = regexp.MustCompile(`(?:\[\d+ x [^\]]*\]|%"[^"]*"|%[\w.]+|i\d+|float|double)\*+`)
 	reDefine = regexp.MustCompile(`^define\s+(\S+)\s+@"?([^"(]+)"?\(([^)]*)\)`)
 	reAssign = regexp.MustCompile(`^\s+(%[\w.]+) = (.*)$`)
 )
@@ -61,6 +62,8 @@ func parseIR(text string) []*irFunc {
 	for _, rawLine := range strings.Split(text, "\n") {
 		// complex numbers are { double, double } / { float, float }: one token for the parser
 		line := strings.ReplaceAll(strings.ReplaceAll(rawLine, "{ double, double }", "c128"), "{ float, float }", "c64")
+		// pointer types of any shape become the single token ptr (a 64-bit word)
+		line = rePtrType.ReplaceAllString(line, "ptr")
 		if m := reDefine.FindStringSubmatch(line); m != nil {
 			cur = &irFunc{name: m[2], ret: m[1], text: strings.Replace(rawLine, " #0 {", " {", 1) + "\n"}
 			for _, p := range strings.Split(m[3], ",") {
@@ -180,6 +183,9 @@ func parseIR(text string) []*irFunc {
 }
 
 func irWidth(ty string) int {
+	if ty == "ptr" {
+		return 64
+	}
 	if strings.HasPrefix(ty, "i") {
 		n, err := strconv.Atoi(ty[1:])
 		if err == nil {
@@ -334,6 +340,8 @@ func (e *irEval) operand(tok string, w int) irVal {
 		return irVal{t: "#b0", w: 1, poison: "false"}
 	case "poison", "undef":
 		return irVal{t: bvLit(big.NewInt(0), w), w: w, poison: "true"}
+	case "null":
+		return irVal{t: bvLit(big.NewInt(0), w), w: w, poison: "false"}
 	}
 	n, ok := new(big.Int).SetString(tok, 10)
 	if !ok {
@@ -554,6 +562,14 @@ func (e *irEval) eval(fn *irFunc) (ret irVal) {
 				for i, a := range ins.args {
 					aw := irWidth(ins.argTys[i])
 					c.tys = append(c.tys, ins.argTys[i])
+					if ins.argTys[i] == "ptr" {
+						if v, ok := e.vals[a]; ok {
+							c.args = append(c.args, v)
+						} else {
+							c.args = append(c.args, irVal{t: a}) // constant expression / global: opaque
+						}
+						continue
+					}
 					if aw > 0 {
 						c.args = append(c.args, e.operand(a, aw))
 					} else {
